@@ -667,7 +667,68 @@ def install_sqlite(inst: Installed | None = None) -> Installed:
     inst.set(cls, "execute", execute)
     inst.set(cls, "commit", commit)
     inst.set(cls, "__exit__", __exit__)
-    # the client data store uses raw sqlite3 connections: same treatment through a module shim
+    # the client data store uses raw sqlite3 connections (`with sqlite3.connect(path) as conn`): same treatment through a
+    # module shim, otherwise its 5 s busy wait would burn real time while the lock holder is parked and then raise
+    import types
+
+    import pynenc.client_data_store.sqlite_client_data_store as cds_mod
+
+    def _retry(fn: Callable[[], Any], label: Any) -> Any:
+        s = active()
+        a = current_actor()
+        if s is None or a is None or not s.running:
+            return fn()
+        s.yield_point(label)
+        while True:
+            try:
+                return fn()
+            except sqlite3.OperationalError as e:
+                if not _locked(e):
+                    raise
+                epoch = s.db_epoch
+                s.block_until(lambda: s.db_epoch != epoch, ("db-locked", str(label)[:40]))
+
+    class CoopRawConn:
+        def __init__(self, path: str, *a: Any, **k: Any) -> None:
+            s = active()
+            if s is not None and current_actor() is not None and s.running:
+                k["timeout"] = 0
+            self._conn = sqlite3.connect(path, *a, **k)
+
+        def execute(self, sql: str, parameters: Any = ()) -> Any:
+            return _retry(lambda: self._conn.execute(sql, parameters), ("sql", " ".join(sql.split())[:60]))
+
+        def commit(self) -> None:
+            _retry(self._conn.commit, ("commit",))
+            s = active()
+            if s is not None:
+                s.db_epoch += 1
+
+        def rollback(self) -> None:
+            self._conn.rollback()
+            s = active()
+            if s is not None:
+                s.db_epoch += 1
+
+        def close(self) -> None:
+            self._conn.close()
+
+        def cursor(self) -> Any:
+            return self._conn.cursor()
+
+        def __enter__(self) -> "CoopRawConn":
+            return self
+
+        def __exit__(self, exc_type: Any, exc_val: Any, exc_tb: Any) -> None:
+            # sqlite3's own context manager: commit on success, roll back on error (the connection stays open)
+            if exc_type is None:
+                self.commit()
+            else:
+                self.rollback()
+
+    shim = types.SimpleNamespace(**{n: getattr(sqlite3, n) for n in dir(sqlite3) if not n.startswith("__")})
+    shim.connect = CoopRawConn
+    inst.set(cds_mod, "sqlite3", shim)
     return inst
 
 
